@@ -39,8 +39,8 @@ def main():
         if not os.path.isdir(md):
             continue
         for m in sorted(os.listdir(md)):
-            name = "%s-%s" % (prop, m)
-            if only and name not in only and prop not in only:
+            name = "%s%s-%s" % (os.environ.get("SEED_PREFIX", ""), prop, m)
+            if only and name not in only and prop not in only and ("%s-%s" % (prop, m)) not in only:
                 continue
             src = os.path.join(md, m)
             if not os.path.exists(os.path.join(src, "patch.diff")):
